@@ -212,6 +212,11 @@ def body_fit(case):
     X1, P1, X2, P2 = map(np.asarray, (X1, P1, X2, P2))
     labs = sv1.labels() + ["asserted" if case["asserted"] else "stress", f"acc:{case['accuracy']}", f"W:{wlab}"]
     cap = 2e-3 if high else 2e-2
+    # the solver's accuracy refers to the WEIGHTED residual: a receptor weighted by w < 1 is resolved to cap / w only
+    if isinstance(W, str) and W == "inverse":
+        cap = cap * float(max(1.0, np.max(np.abs(B1))))
+    elif not isinstance(W, str):
+        cap = cap / float(min(1.0, np.min(np.asarray(W, dtype=float))))
     smin = float(np.linalg.svd(sv1.Ap, compute_uv=False)[min(sv1.Ap.shape) - 1])
     xtol = 4 * cap / max(smin, 1e-9)
     e1 = np.linalg.norm(P1 - B1, axis=1)
